@@ -91,6 +91,8 @@ func vsDialer(kind string, conn *simnet.SimConn) (dial func(ctx context.Context,
 		case "cid":
 			sp.InitialPacketSpec.SrcConnIDLength = 7
 			sp.InitialPacketSpec.DestConnIDLength = 17
+		case "suppress": // drop real parameters from the wire: idle timeout, datagram support, bidi stream count
+			sp.SuppressTransportParameters = []uint64{0x01, 0x20, 0x08}
 		case "udp1350":
 			sp.UDPDatagramMinSize = 1350
 		default:
